@@ -53,6 +53,8 @@ type Path struct {
 	SetNames    int
 	flats       []flatRec
 	opts        map[string]*OptType
+	// Conformance: set by FlatPredConformance: "" or how the body's answer differs from the abstraction
+	Conformance string
 }
 
 // Opts: the optional-type results of abstracted method lookups on this path.
@@ -85,6 +87,7 @@ type Interp struct {
 	NameVariants bool
 	globals      map[*types.Var]*Value
 	Plugin       string
+	postBody     func(it *Interp, p *Path)
 }
 
 type Run struct {
@@ -282,6 +285,9 @@ func (it *Interp) runOnce(di *declInfo, entryKey string, mkArgs func(it *Interp)
 	f := &FuncVal{Decl: di.decl, Info: di.info, Recv: recv, Name: entryKey}
 	it.entryDone = true
 	p.Ret = it.callFunc(f, args, di.decl.Pos())
+	if it.postBody != nil {
+		it.postBody(it, p)
+	}
 	return p
 }
 
